@@ -322,6 +322,7 @@ fn gen_history_inner(r: &mut Rng, o: &GenOpts, cfg: Cfg) -> History {
     let mut vops: Vec<Op> = Vec::new();
     let use_encode_v = !reorder && start == 0.0 && r.chance(o.encode_pct, 100);
     let enc_ms = *r.pick(&[33u32, 40, 20, 1, 1000, 17]);
+    let enc_var = r.chance(1, 3);
     for (i, &(pts, dts)) in vt.iter().enumerate() {
         let body = if o.big_frames { frame_len(r) } else { small_len(r) };
         let kind = if i == 0 {
@@ -338,7 +339,9 @@ fn gen_history_inner(r: &mut Rng, o: &GenOpts, cfg: Cfg) -> History {
         let data = video_frame(r, cfg.vcodec, kind, body, o.decorate);
         let key = kind != FrameKind::Delta;
         if use_encode_v {
-            vops.push(Op::EncodeVideo { data, dur_ms: enc_ms });
+            // constant frame duration, or (variable frame rate) a different one per call
+            let d = if enc_var { *r.pick(&[33u32, 40, 20, 50, 100, 17, 1]) } else { enc_ms };
+            vops.push(Op::EncodeVideo { data, dur_ms: d });
         } else if reorder || r.chance(1, 6) {
             vops.push(Op::wvd(pts, dts, data, key));
         } else {
@@ -368,9 +371,11 @@ fn gen_history_inner(r: &mut Rng, o: &GenOpts, cfg: Cfg) -> History {
         let use_encode_a = use_encode_v && off == 0.0 && r.chance(1, 2);
         // some streams carry capture jitter: individual timestamps a few ticks off the grid
         let jitter = r.chance(1, 5);
+        // audio timestamps only have to be non-decreasing: some streams stamp frames in pairs
+        let eq_den = if r.chance(1, 6) { 2 } else { 12 };
         for j in 0..na {
             let mut pts = first_v_pts + off + j as f64 * step;
-            if j > 0 && r.chance(1, 12) {
+            if j > 0 && r.chance(1, eq_den) {
                 pts = first_v_pts + off + (j - 1) as f64 * step; // equal to the previous one
             } else if jitter && j > 0 && r.chance(1, 3) {
                 pts += (r.range(0, 40) as f64 - 20.0) / 90_000.0;
@@ -437,7 +442,10 @@ fn gen_history_inner(r: &mut Rng, o: &GenOpts, cfg: Cfg) -> History {
             let next_ts = |r: &mut Rng, p: Option<f64>| p.map(|x| x + 0.001 + r.f64_unit() * 0.01).unwrap_or(0.0);
             let op = match r.below(12) {
                 0 => Op::wv(hostile_ts(r, last_v), valid_v, r.chance(1, 2)),
-                1 => Op::wv(next_ts(r, last_v), hostile_bytes(r, &valid_v), r.chance(1, 2)),
+                1 => {
+                    let d = if cfg.vcodec == AV1 && r.chance(1, 3) { crate::model::av1::truncated_seq_unit(r) } else { hostile_bytes(r, &valid_v) };
+                    Op::wv(next_ts(r, last_v), d, r.chance(1, 2))
+                }
                 2 => Op::wvd(hostile_ts(r, last_v), next_ts(r, last_v), valid_v, r.chance(1, 2)),
                 3 => Op::wvd(next_ts(r, last_v), hostile_ts(r, last_v), valid_v, r.chance(1, 2)),
                 4 => Op::wa(hostile_ts(r, last_a), audio.as_ref().map(|a| audio_frame(r, a, 10)).unwrap_or_else(|| vec![1, 2, 3])),
